@@ -601,6 +601,9 @@ func (w *Worker) finishPath(end *PathEnd, m *Machine) {
 	}
 	if viol != nil {
 		key := end.Kind + ": " + end.Msg
+		if m != nil && len(m.events) > 0 {
+			key += " @ " + m.events[0]
+		}
 		tbl := e.viols
 		if knownID != "" {
 			tbl = e.knownHit
